@@ -42,6 +42,8 @@ WHAT = {
  'generic pydantic model with one type variable': ("C16", "class PM(BaseModel, Generic[T]): PM[int] / PM handled by the iterable provider (BaseModel defines __iter__): {'x': 1, 'y': [2]} rejected with ExcludedTypeLoadError, dump returns a tuple of pairs (case_PM_int, case_PMOpt_int, case_PM_bare)"),
  'prefixed with g_': ("C19", "two linked functions named foo and g_foo in one converter: UnboundLocalError at creation, or (other recipe order) both fields computed by the same function (names_build; names_generated_helpers gi=55)"),
  'pasted into the generated code as their repr': ("C19", "impl_converter stub with a defaulted extra parameter: the default's repr was written into the generated def line: Decimal('1.5') -> NameError, plain object -> SyntaxError, an object whose repr is code -> executed (names_build; names_param_defaults di=1..8)"),
+ 'bare abstract collections got no implicit': ("C15", "normalize_type(typing.Sequence) != normalize_type(typing.Sequence[Any]) (also Iterable, Collection, MutableSequence, AbstractSet, MutableSet, Mapping, MutableMapping): no implicit parameters, no loader for the bare hint (congruence seq_bare; builds)"),
+ 'IndexError / AttributeError instead of ProviderNotFoundError': ("C14", "get_converter for a field pair involving Tuple[()] -> IndexError, int | str opposite a model -> AttributeError, bare abstract collections -> IndexError, instead of ProviderNotFoundError (odd_hints s='pipe_int_str' d='G_int')"),
  'generic type aliases': ("C16", "type RevMap[K, V] = dict[V, K]: RevMap[int, str] loaded as dict[int, str] ({'a': 1} rejected, {1: 'a'} accepted) (alias_RevMap_int_str)"),
 }
 WHAT.update(json.load(open('/verif/tools/fixed_extra.json')) if __import__('os').path.exists('/verif/tools/fixed_extra.json') else {})
